@@ -52,26 +52,29 @@ impl Cmp {
 		}
 	}
 	/// The configured key order, as the property understands it:
-	/// bytewise = lexicographic; ts = (user key ascending, timestamp descending) over
-	/// encoded internal keys `user ++ trailer(8) ++ timestamp(8, big endian)`.
+	/// bytewise = lexicographic; ts = (user key ascending, timestamp descending, sequence number descending - since
+	/// repository commit 5c1a8fa two versions with one timestamp are two keys) over encoded internal keys
+	/// `user ++ trailer(8) = seq << 8 | kind ++ timestamp(8, big endian)`; the kind byte does not take part.
 	pub fn order(self, a: &[u8], b: &[u8]) -> Ordering {
 		match self {
 			Cmp::Bytewise => a.cmp(b),
 			Cmp::Ts => {
-				let (ua, ta) = split_ts(a);
-				let (ub, tb) = split_ts(b);
-				ua.cmp(ub).then(tb.cmp(&ta))
+				let (ua, ta, sa) = split_ts(a);
+				let (ub, tb, sb) = split_ts(b);
+				ua.cmp(ub).then(tb.cmp(&ta)).then(sb.cmp(&sa))
 			}
 		}
 	}
 }
 
-fn split_ts(k: &[u8]) -> (&[u8], u64) {
+fn split_ts(k: &[u8]) -> (&[u8], u64, u64) {
 	assert!(k.len() >= 16, "ts-ordered keys are encoded internal keys (>= 16 bytes)");
 	let n = k.len() - 16;
 	let mut t = [0u8; 8];
 	t.copy_from_slice(&k[n + 8..]);
-	(&k[..n], u64::from_be_bytes(t))
+	let mut tr = [0u8; 8];
+	tr.copy_from_slice(&k[n..n + 8]);
+	(&k[..n], u64::from_be_bytes(t), u64::from_be_bytes(tr) >> 8)
 }
 
 /// A key of the ordered-map oracle: bytes + the order they live under.
@@ -105,7 +108,7 @@ pub type Model = BTreeMap<OKey, (Vec<u8>, Vec<u8>)>;
 /// A key as the spec / the generators name it.
 /// `g` = group (user key id), `t` = version index inside the group, `len` = total
 /// length in bytes of the stored key, `alias` = variant that is *equal under the ts
-/// order* but different in bytes (other trailer); ignored by the bytewise mapping.
+/// order* but different in bytes (other kind byte in the trailer); ignored by the bytewise mapping.
 #[derive(Clone, Copy, PartialEq, Eq, Hash, Debug, Serialize, Deserialize, PartialOrd, Ord)]
 pub struct KeySpec {
 	pub g: u32,
@@ -145,12 +148,8 @@ pub fn key_bytes(cmp: Cmp, k: &KeySpec) -> Vec<u8> {
 			let ulen = (k.len as usize).saturating_sub(16).max(2);
 			v.extend_from_slice(&(k.g as u16).to_be_bytes());
 			filler(k.g * 16 + 15, ulen - 2, &mut v);
-			let trailer: u64 = ((1000 + k.g as u64 * 8 + k.t as u64 + 100_000 * k.alias as u64) << 8)
-				| if k.alias % 2 == 0 {
-					2
-				} else {
-					0
-				};
+			// an alias differs in the kind byte only: the same key under the ts order
+			let trailer: u64 = ((1000 + k.g as u64 * 8 + k.t as u64) << 8) | [2u64, 0, 6, 3][k.alias as usize % 4];
 			v.extend_from_slice(&trailer.to_be_bytes());
 			v.extend_from_slice(&TS_VALUES[k.t as usize % 4].to_be_bytes());
 		}
